@@ -681,6 +681,9 @@ class FileSet:
             matches = list(
                 self.match(other, start, end, max_interval=max_interval)
             )
+        if not matches:
+            # Nothing matches, i.e. there is nothing to align:
+            return
         primaries, secondaries = zip(*matches)
 
         # We have to consider the following to make the align method work
